@@ -29,7 +29,7 @@ OUT_OF_SCOPE = {"xgi.drawing.draw:draw_directed_dyads": "not among the functions
 def run(ctx):
     repo = ctx.repo
     res = Result(PROP)
-    res.rules = ["K1", "K2", "K5", "L-KEYS", "L-ORDER", "L-RANGE", "L-CUT", "L-FACEID", "L-FLOW", "L-POLY"]
+    res.rules = ["K1", "K2", "K5", "L-KEYS", "L-ORDER", "L-RANGE", "L-CUT", "L-FACEID", "L-FLOW", "L-POLY", "L-FWD"]
     res.explanation = (
         "Narrow claim: kind inference (labels vs positions) over the layout and drawing modules, key provenance of the "
         "dict every layout returns, and agreement of the permutation applied to per-edge style arrays and patches. "
@@ -56,6 +56,7 @@ def run(ctx):
     check_range(repo, res, fns)
     check_cut(repo, res)
     check_polygons(repo, res)
+    check_forwarding(repo, res)
     from .common import check_dead_params
 
     nd = check_dead_params(res, PROP, "L-FLOW", [f for f in fns if f.module.name.endswith(".layout")], "the positions returned")
@@ -67,6 +68,45 @@ def run(ctx):
                  lambda nd: f"`{unparse(nd, 60)}` de-duplicates faces by the tuples a combinations-style enumeration yields; a two-node face shared by two simplices can come out as (a, b) from one and (b, a) from the other, survives twice and is drawn as two lines (one line per two-node simplex is lost)",
                  "raw combination tuples used as identities")
     return res
+
+
+STRUCTURAL_DRAW_PARAMS = ("pos", "ax", "max_order", "hull", "radius")
+
+
+def check_forwarding(repo, res):
+    """L-FWD: a draw function that delegates part of the figure to a sibling draw_* function hands on where things are
+    (`pos`), where they are drawn (`ax`) and how far (`max_order`, `hull`, `radius`).  A sibling called without `pos`
+    computes a layout of its own (seed None): its lines and polygons no longer sit at the nodes' positions."""
+    mi = repo.modules.get("xgi.drawing.draw")
+    if mi is None:
+        raise AnalysisError("xgi.drawing.draw not found (anchor vanished)")
+    n = 0
+    for fn in mi.functions.values():
+        for c in ast.walk(fn.node):
+            if not (isinstance(c, ast.Call) and isinstance(c.func, ast.Name) and c.func.id.startswith("draw") and c.func.id in mi.functions and c.func.id != fn.name):
+                continue
+            g = mi.functions[c.func.id]
+            gp = g.all_params
+            passed = set(gp[: len([a for a in c.args if not isinstance(a, ast.Starred)])]) | {k.arg for k in c.keywords if k.arg}
+            if any(isinstance(a, ast.Starred) for a in c.args):
+                raise AnalysisError(f"{fn.qualname}:{c.lineno}: star-arguments in a call of {g.name} (extractor does not recognise the code)")
+            # keyword bundles built locally: {"pos": pos, ...} forwarded with **
+            for k in c.keywords:
+                if k.arg is None and isinstance(k.value, ast.Name):
+                    for st in ast.walk(fn.node):
+                        if isinstance(st, ast.Assign) and any(isinstance(t, ast.Name) and t.id == k.value.id for t in st.targets):
+                            if isinstance(st.value, ast.Dict):
+                                passed |= {x.value for x in st.value.keys if isinstance(x, ast.Constant)}
+                            elif isinstance(st.value, ast.Call) and getattr(st.value.func, "id", None) == "dict":
+                                passed |= {x.arg for x in st.value.keywords if x.arg}
+            for p in STRUCTURAL_DRAW_PARAMS:
+                if p in gp and p in fn.all_params:
+                    n += 1
+                    ok = p in passed
+                    res.inst("L-FWD", f"{fn.qualname}:{c.lineno} {g.name}(... {p}=...) receives the caller's `{p}`", ok)
+                    if not ok:
+                        res.add(mk_finding(PROP, "L-FWD", fn, c, f"{fn.qualname}: `{unparse(c, 40)}` does not pass `{p}` on to {g.name}; " + ("the callee lays the network out again on its own (unseeded), so this part of the figure is not drawn at the nodes' positions" if p == "pos" else ("this part of the figure goes to whatever axes are current, not the caller's" if p == "ax" else f"the callee falls back to its default `{p}`, so edges beyond / within the requested limit are drawn differently from the rest of the figure")), role=f"{g.name}:{p}"))
+    res.floor("structural parameters forwarded between draw functions", n, 15)
 
 
 def check_polygons(repo, res):
